@@ -611,3 +611,45 @@ func TestLitmus(t *testing.T) {
 		s.Go(func() { stime.Sleep(time.Millisecond); simrt.Send(ch, 5) })
 	}), "value5", "timeout")
 }
+
+// Map keys that are (or contain) channels or pointers are ordered by when they were
+// inserted, never by address: the same seed gives the same iteration order although
+// every execution allocates its channels somewhere else.
+func TestMapOrderOverIdentityKeys(t *testing.T) {
+	type ck struct {
+		ch chan int
+		id int
+	}
+	run := func(seed uint64) string {
+		s := simrt.New(simrt.Config{Seed: seed, Strategy: simrt.StratRandom, MapShuffle: true})
+		got := ""
+		var keep [][]byte
+		s.Go(func() {
+			plain := map[chan int]int{}
+			comp := map[ck]int{}
+			for i := 0; i < 6; i++ {
+				keep = append(keep, make([]byte, 1+int(seed%7)*64)) // move the allocator around
+				c := make(chan int)
+				plain[simrt.Key(c)] = i
+				comp[simrt.Key(ck{c, i % 2})] = i
+			}
+			for _, k := range simrt.MapOrder(plain) {
+				got += fmt.Sprint(plain[k])
+			}
+			got += "/"
+			for _, k := range simrt.MapOrder(comp) {
+				got += fmt.Sprint(comp[k])
+			}
+		})
+		s.Run()
+		_ = keep
+		return got
+	}
+	a, b := run(11), run(11)
+	if a != b || len(a) != 13 {
+		t.Fatalf("same seed, different orders: %q %q", a, b)
+	}
+	if c := run(12); c == a {
+		t.Logf("seeds 11 and 12 happen to give the same order %q", a)
+	}
+}
